@@ -8,18 +8,25 @@ package c13hand
 
 import (
 	"fmt"
+	"net"
 	"os"
 	"path/filepath"
 	"sync"
 	"sync/atomic"
 	"time"
 
+	"github.com/gogo/protobuf/proto"
+
 	cfg "github.com/tendermint/tendermint/config"
 	"github.com/tendermint/tendermint/consensus"
+	"github.com/tendermint/tendermint/crypto/ed25519"
 	"github.com/tendermint/tendermint/internal/verif/c13kit"
 	"github.com/tendermint/tendermint/libs/log"
 	mpmock "github.com/tendermint/tendermint/mempool/mock"
+	"github.com/tendermint/tendermint/libs/service"
 	"github.com/tendermint/tendermint/p2p"
+	"github.com/tendermint/tendermint/p2p/conn"
+	bcproto "github.com/tendermint/tendermint/proto/tendermint/blockchain"
 	sm "github.com/tendermint/tendermint/state"
 	"github.com/tendermint/tendermint/types"
 )
@@ -33,6 +40,7 @@ type Result struct {
 	InvalidVotes  int    // of which do not verify under the canonical validator of their index
 	NoTwoThirds   bool   // rebuilt LastCommit lacks +2/3
 	ConsensusRuns bool   // the consensus state was running after the switch
+	Cause         string // ground truth about the seen commit at Height: why its first bad slot is bad ("" = all slots valid)
 }
 
 var (
@@ -107,6 +115,9 @@ func (r *Reactor) SwitchToConsensus(state sm.State, skipWAL bool) {
 	r.res.Called = true
 	r.res.Height = state.LastBlockHeight
 	defer close(r.Done)
+	if state.LastBlockHeight > 0 {
+		r.res.Cause = r.chain.BadSlotCause(state.LastBlockHeight, r.node.BlockStore.LoadSeenCommit(state.LastBlockHeight))
+	}
 
 	bus := types.NewEventBus()
 	bus.SetLogger(log.NewNopLogger())
@@ -172,13 +183,17 @@ func (r *Reactor) inspect(vs *types.VoteSet, h int64) {
 
 // Verdict turns a hand-over result into ("", "") or a violation (key, what). prefix names the reactor.
 func (res Result) Verdict(prefix string, tipLies string) (key, what string) {
+	cause := res.Cause
+	if cause == "" {
+		cause = "seen-commit-fully-valid"
+	}
 	switch {
 	case res.SwitchPanic != "":
-		return prefix + ":handover-panics:" + classify(res.SwitchPanic),
-			fmt.Sprintf("block sync finished at height %d; SwitchToConsensus panicked: %.300s (tip commit came from a peer telling: %s)", res.Height, res.SwitchPanic, tipLies)
+		return prefix + ":handover-panics:" + cause,
+			fmt.Sprintf("block sync finished at height %d; SwitchToConsensus panicked: %.300s (the commit stored with the last block came from a peer telling: %s)", res.Height, res.SwitchPanic, tipLies)
 	case res.RestartPanic != "":
-		return prefix + ":restart-panics:" + classify(res.RestartPanic),
-			fmt.Sprintf("consensus.NewState on the synced stores panicked: %.300s", res.RestartPanic)
+		return prefix + ":restart-panics:" + cause,
+			fmt.Sprintf("consensus.NewState on the synced stores (height %d) panicked: %.300s", res.Height, res.RestartPanic)
 	case res.NoTwoThirds:
 		return prefix + ":handover-last-commit-without-two-thirds", "rebuilt LastCommit has no +2/3 majority"
 	case res.InvalidVotes > 0:
@@ -187,27 +202,83 @@ func (res Result) Verdict(prefix string, tipLies string) (key, what string) {
 	return "", ""
 }
 
-// classify maps the panic text to the cause class, so that different causes get different keys.
-func classify(p string) string {
-	has := func(s string) bool {
-		for i := 0; i+len(s) <= len(p); i++ {
-			if p[i:i+len(s)] == s {
-				return true
-			}
-		}
-		return false
+// ---------------------------------------------------------------------------------------------
+// harness peers and switch (shared by the v0, v1 and v2 parts)
+
+// Peer is a p2p.Peer whose outgoing block requests are handed to the harness.
+type Peer struct {
+	service.BaseService
+	PID       p2p.ID
+	H         int64 // the height this peer offers (v0/v2: its whole range)
+	K         int   // ordinal among the peers for that height
+	Seq       int
+	OnRequest func(p *Peer, height int64) bool
+	OnStopped func(p *Peer)
+	Asked     bool
+	Resp      *c13kit.Response
+}
+
+var peerSeq int64
+
+func NewPeer(h int64, k int, onReq func(*Peer, int64) bool, onStop func(*Peer)) *Peer {
+	seq := int(atomic.AddInt64(&peerSeq, 1))
+	p := &Peer{H: h, K: k, Seq: seq % 60000, OnRequest: onReq, OnStopped: onStop,
+		PID: p2p.ID(fmt.Sprintf("%030x%02x%08x", 0xc13, h, seq))}
+	p.BaseService = *service.NewBaseService(log.NewNopLogger(), "c13Peer", p)
+	if err := p.Start(); err != nil {
+		panic(err)
 	}
-	switch {
-	case has("does not match address"), has("invalid validator address"):
-		return "seen-commit-slot-with-wrong-validator-address"
-	case has("invalid signature"), has("failed to verify vote"):
-		return "seen-commit-slot-with-invalid-signature"
-	case has("seen commit for height") && has("not found"):
-		return "seen-commit-missing"
-	case has("does not have +2/3"):
-		return "seen-commit-without-two-thirds"
-	case has("Failed to reconstruct LastCommit"):
-		return "seen-commit-rejected-by-vote-set"
+	return p
+}
+
+func (p *Peer) OnStop() {
+	if p.OnStopped != nil {
+		p.OnStopped(p)
 	}
-	return "other"
+}
+func (p *Peer) FlushStop()           { _ = p.Stop() }
+func (p *Peer) ID() p2p.ID           { return p.PID }
+func (p *Peer) RemoteIP() net.IP     { return net.IPv4(127, 0, byte(p.Seq>>8), byte(p.Seq)) }
+func (p *Peer) RemoteAddr() net.Addr { return &net.TCPAddr{IP: p.RemoteIP(), Port: 20000 + p.Seq%40000} }
+func (p *Peer) IsOutbound() bool     { return true }
+func (p *Peer) IsPersistent() bool   { return false }
+func (p *Peer) CloseConn() error     { return nil }
+func (p *Peer) NodeInfo() p2p.NodeInfo {
+	return p2p.DefaultNodeInfo{DefaultNodeID: p.PID, ListenAddr: "127.0.0.1:1"}
+}
+func (p *Peer) Status() conn.ConnectionStatus { return conn.ConnectionStatus{} }
+func (p *Peer) SocketAddr() *p2p.NetAddress {
+	return p2p.NewNetAddressIPPort(p.RemoteIP(), uint16(20000+p.Seq%40000))
+}
+func (p *Peer) Send(byte, []byte) bool              { return true }
+func (p *Peer) TrySend(byte, []byte) bool           { return true }
+func (p *Peer) Set(string, interface{})             {}
+func (p *Peer) Get(string) interface{}              { return nil }
+func (p *Peer) SetRemovalFailed()                   {}
+func (p *Peer) GetRemovalFailed() bool              { return false }
+func (p *Peer) TrySendEnvelope(e p2p.Envelope) bool { return p.SendEnvelope(e) }
+func (p *Peer) SendEnvelope(e p2p.Envelope) bool {
+	if m, ok := e.Message.(*bcproto.BlockRequest); ok && p.OnRequest != nil {
+		return p.OnRequest(p, m.Height)
+	}
+	return true
+}
+
+// NewSwitch returns a real, not started p2p.Switch over a real (not listening) transport.
+func NewSwitch() *p2p.Switch {
+	nodeKey := p2p.NodeKey{PrivKey: ed25519.GenPrivKeyFromSecret([]byte("verif-c13-node"))}
+	ni := p2p.DefaultNodeInfo{DefaultNodeID: nodeKey.ID(), ListenAddr: "127.0.0.1:1", Network: c13kit.ChainID, Moniker: "c13"}
+	tr := p2p.NewMultiplexTransport(ni, nodeKey, conn.DefaultMConnConfig())
+	sw := p2p.NewSwitch(cfg.DefaultP2PConfig(), tr)
+	sw.SetLogger(log.NewNopLogger())
+	return sw
+}
+
+// Wire marshals a blockchain message the way a peer's connection delivers it.
+func Wire(m *bcproto.Message) []byte {
+	bz, err := proto.Marshal(m)
+	if err != nil {
+		panic(err)
+	}
+	return bz
 }
